@@ -937,7 +937,9 @@ C17.manifest = {
             "RandomState, rayon or binary64 rounding. The whole-algorithm theorems quantify over the iteration order "
             "at the order-sensitive sites of louvain.rs (DESIGN 0.10.8 lists all hash-iteration sites of the call tree; "
             "no uncanonicalised one was found); iterations that only feed another hash container (set difference / "
-            "union / extend / collect) keep the model's list representation, and the f64 sums inside degree.rs / "
+            "union / extend / collect) keep the model's list representation - for them only local content-level lemmas are "
+            "proved (C17_generate_graph_part_order_free, C17_set_ops_content_only, "
+            "C17_convert_back_community_order_free), not composed - and the f64 sums inside degree.rs / "
             "query.rs / partitions.rs (sum_sorted) are exact rationals in the model - their order-freedom in binary64 is "
             "observed, not proved. fast_gnp_random_graph has no model here (it belongs to C16); the "
             "sentence about all non-randomised algorithms is covered only for modularity (C12 correspondence) and the "
